@@ -108,6 +108,9 @@ pub enum What {
     Do(Box<dyn FnOnce(&Arc<World>) + Send>),
     /// keeps the simulation alive until this instant
     Nop,
+    /// let this much virtual time pass before anybody is polled again (used with the logical
+    /// clock, where busy-waking actors would otherwise keep the runtime from ever going idle)
+    Advance(Us),
 }
 
 struct Timed {
@@ -141,6 +144,12 @@ pub struct Sim {
     pub horizon: Us,
     pct_changes: Vec<u64>,
     ord: u64,
+    /// director events on the logical clock (number of actor polls so far)
+    poll_events: Vec<(u64, u64, Option<What>)>,
+    /// from this poll index on the scheduler is round-robin fair (drain phase for components
+    /// that busy-wake: a strict-priority policy would starve the actor they wait for)
+    pub fair_after_poll: Option<u64>,
+    sleeping_until: Option<Us>,
 }
 
 impl Sim {
@@ -169,7 +178,16 @@ impl Sim {
             horizon: 3_600_000_000,
             pct_changes,
             ord: 0,
+            poll_events: Vec::new(),
+            fair_after_poll: None,
+            sleeping_until: None,
         }
+    }
+
+    /// Fires `what` once `n` actor polls have happened (or earlier if nothing is runnable).
+    pub fn at_poll(&mut self, n: u64, what: What) {
+        let ord = self.rng.next();
+        self.poll_events.push((n, ord, Some(what)));
     }
 
     /// Registers an actor; it is created (its `make` runs) when a `Start` event fires.
@@ -239,6 +257,10 @@ impl Sim {
             What::OpenGate(g) => self.w.open_gate(g),
             What::Do(f) => f(&self.w),
             What::Nop => {}
+            What::Advance(d) => {
+                let until = self.w.now() + d;
+                self.sleeping_until = Some(self.sleeping_until.map_or(until, |u| u.max(until)));
+            }
         }
     }
 
@@ -267,6 +289,8 @@ impl Sim {
     pub async fn run(mut self) -> SimStats {
         install_panic_hook();
         self.events.sort_by(|a, b| (a.at, a.ord).cmp(&(b.at, b.ord)));
+        self.poll_events.sort_by(|a, b| (a.0, a.1).cmp(&(b.0, b.1)));
+        let mut next_pe = 0usize;
         let t0 = self.w.t0();
         let mut next_ev = 0usize;
         let mut timer = Box::pin(tokio::time::sleep_until(t0 + Duration::from_micros(self.horizon)));
@@ -299,9 +323,30 @@ impl Sim {
                     next_ev += 1;
                     self.fire(what);
                 }
+                while next_pe < self.poll_events.len() && self.poll_events[next_pe].0 <= stats.polls {
+                    let what = self.poll_events[next_pe].2.take().unwrap();
+                    next_pe += 1;
+                    self.fire(what);
+                }
                 if now >= self.horizon {
                     stats.hit_horizon = true;
                     return Poll::Ready(());
+                }
+                if let Some(until) = self.sleeping_until {
+                    if now < until {
+                        if timer_at != until {
+                            timer.as_mut().reset(t0 + Duration::from_micros(until));
+                            timer_at = until;
+                        }
+                        match timer.as_mut().poll(cx) {
+                            Poll::Ready(()) => {
+                                timer_at = u64::MAX;
+                                continue;
+                            }
+                            Poll::Pending => return Poll::Pending,
+                        }
+                    }
+                    self.sleeping_until = None;
                 }
                 // runnable set
                 let mut runnable: Vec<usize> = (0..self.actors.len())
@@ -317,6 +362,13 @@ impl Sim {
                         runnable.push(i);
                         spurious = true;
                     }
+                }
+                if runnable.is_empty() && next_pe < self.poll_events.len() {
+                    // nothing can run: the logical clock jumps to the next scripted step
+                    let what = self.poll_events[next_pe].2.take().unwrap();
+                    next_pe += 1;
+                    self.fire(what);
+                    continue;
                 }
                 if runnable.is_empty() {
                     let all_done = self.actors.iter().all(|a| a.state != ActorState::Running && a.state != ActorState::NotStarted);
@@ -340,7 +392,11 @@ impl Sim {
                         Poll::Pending => return Poll::Pending,
                     }
                 }
-                let pick = match self.policy {
+                let policy = match self.fair_after_poll {
+                    Some(n) if stats.polls >= n => Policy::Fifo,
+                    _ => self.policy,
+                };
+                let pick = match policy {
                     Policy::Random => *self.rng.pick(&runnable),
                     Policy::Fifo => *runnable.iter().min_by_key(|&&i| self.actors[i].flag.seq.load(Ordering::SeqCst)).unwrap(),
                     Policy::Lifo => *runnable.iter().max_by_key(|&&i| self.actors[i].flag.seq.load(Ordering::SeqCst)).unwrap(),
